@@ -127,7 +127,35 @@ type wireDone struct {
 	TimedOut    bool             `json:"timed_out"`
 	Capped      int64            `json:"capped"`
 	MinBound    int              `json:"min_bound"`
+	Slow        []SlowCase       `json:"slow,omitempty"` // cases that took more than a second
 }
+
+type SlowCase struct {
+	Idx   int     `json:"index"`
+	Secs  float64 `json:"seconds"`
+	Execs int64   `json:"executions"`
+}
+
+// Heartbeat tells the watchdog that the running case is making progress (exploring cases call it
+// once per execution); the journal then names the case and a progress counter.
+func Heartbeat() {
+	if hbFile == nil {
+		return
+	}
+	hbCount++
+	if hbCount&63 != 0 {
+		return
+	}
+	var b [32]byte
+	copy(b[:], "                                ")
+	copy(b[:], strconv.Itoa(CurCase)+":"+strconv.FormatInt(hbCount, 10))
+	hbFile.WriteAt(b[:], 0)
+}
+
+var (
+	hbFile  *os.File
+	hbCount int64
+)
 
 var (
 	outMu   sync.Mutex
@@ -173,6 +201,7 @@ func WorkerMain(id, tier string, shard, nshards, start int, journal string, dead
 		fmt.Fprintln(os.Stderr, err)
 		os.Exit(2)
 	}
+	hbFile = jf
 	d := &wireDone{Counters: map[string]int64{}, Last: -1, MinBound: 1 << 30}
 	outcomes := map[uint64]struct{}{}
 	sent := map[uint64]struct{}{}
@@ -193,7 +222,7 @@ func WorkerMain(id, tier string, shard, nshards, start int, journal string, dead
 		d = nd
 		lastFlush = time.Now()
 	}
-	var jb [16]byte
+	var jb [32]byte
 	first := start
 	if first%nshards != shard {
 		first += (shard - first%nshards + nshards) % nshards
@@ -205,10 +234,14 @@ func WorkerMain(id, tier string, shard, nshards, start int, journal string, dead
 		}
 		CurCase = i
 		s := strconv.Itoa(i)
-		copy(jb[:], "                ")
+		copy(jb[:], "                                ")
 		copy(jb[:], s)
 		jf.WriteAt(jb[:], 0)
+		tc := time.Now()
 		r := p.RunCase(i)
+		if dt := time.Since(tc).Seconds(); dt > 1 {
+			d.Slow = append(d.Slow, SlowCase{Idx: i, Secs: dt, Execs: r.Execs})
+		}
 		d.Cases++
 		d.Execs += r.Execs
 		d.Transitions += r.Transitions
@@ -454,6 +487,7 @@ func ParentMain(o Options) int {
 						for _, h := range d.Outcomes {
 							outcomes[h] = struct{}{}
 						}
+						total.Slow = append(total.Slow, d.Slow...)
 					}
 					mu.Unlock()
 				}
@@ -479,7 +513,7 @@ func ParentMain(o Options) int {
 				// the worker died inside a case
 				last := -1
 				if b, err := os.ReadFile(journal); err == nil {
-					last, _ = strconv.Atoi(strings.TrimSpace(string(b)))
+					last, _ = strconv.Atoi(strings.SplitN(strings.TrimSpace(string(b)), ":", 2)[0])
 				}
 				if aborted < 0 {
 					eb, _ := os.ReadFile(errFile)
@@ -635,6 +669,11 @@ func ParentMain(o Options) int {
 		"violating_cases_unlisted":      nUnknown,
 		"explanation":                   "every explored trace is an execution of the real implementation (instrumented build of the current working tree); states = distinct cases (input enumeration) or distinct scheduler states (schedule exploration)",
 	}
+	sort.Slice(total.Slow, func(i, j int) bool { return total.Slow[i].Secs > total.Slow[j].Secs })
+	if len(total.Slow) > 8 {
+		total.Slow = total.Slow[:8]
+	}
+	cov["slowest_cases"] = total.Slow
 	if total.MinBound < 1<<30 && total.MinBound > 0 {
 		cov["deviation_bound_completed"] = total.MinBound
 	}
